@@ -146,6 +146,65 @@ theorem stripECS_of_all_ecs (os : List EOpt) (h : ∀ x ∈ os, x.code = codeECS
   intro x hx
   simp [h x hx]
 
+/-! ### SetEdns0 and the writer's own options -/
+
+theorem clientDO_of_set0 (c : Consts) (b : Bool) (q : Query)
+    (hv : ∀ o, q.opt = some o → o.version = 0) : (setEdns0 c b q.opt).do_ = q.clientDO := by
+  unfold Query.clientDO
+  cases h : q.opt with
+  | none => simp [setEdns0]
+  | some o => simp [setEdns0, hv o h]
+
+theorem set0_options_ecs (c : Consts) (b : Bool) (o : Option Opt) :
+    ∀ x ∈ (setEdns0 c b o).opt.options, x.code = codeECS := by
+  cases o with
+  | none => simp [setEdns0]
+  | some o =>
+    unfold setEdns0
+    simp only
+    split <;> exact forwardedECS_code b o.options
+
+theorem finishOptions_mem (cfg : Cfg) (w : Writer) (os : List EOpt) (x : EOpt)
+    (hx : x ∈ finishOptions cfg w os) :
+    (x ∈ os ∧ x.code ≠ codeECS ∧ x.code ≠ codeKeepalive) ∨ (x = .srvKeepalive cfg.kaUnits ∧ w.keepalive = true) := by
+  unfold finishOptions stripKeepalive stripECS keepaliveOpts at hx
+  rcases List.mem_append.mp hx with h | h
+  · left
+    simp only [List.mem_filter, bne_iff_ne, ne_eq] at h
+    exact ⟨h.1.1, h.1.2, h.2⟩
+  · right
+    split at h
+    · rename_i hk; simp at h; exact ⟨h, hk⟩
+    · simp at h
+
+theorem writerOptions_mem (cfg : Cfg) (w : Writer)
+    (hecs : ∀ o, w.opt = some o → ∀ x ∈ o.options, x.code = codeECS)
+    (x : EOpt) (hx : x ∈ writerOptions cfg w) :
+    x.code = codeECS ∨ (∃ c, x = .srvCookie c ∧ w.cookie = some c) ∨
+      (x = .srvNsid cfg.nsid ∧ cfg.nsid ≠ [] ∧ w.nsid = true) := by
+  unfold writerOptions at hx
+  rcases List.mem_append.mp hx with h | h
+  · rcases List.mem_append.mp h with h | h
+    · left
+      cases ho : w.opt with
+      | none => rw [ho] at h; simp at h
+      | some o => rw [ho] at h; exact hecs o ho x h
+    · right; left
+      unfold cookieOpts at h
+      cases hc : w.cookie with
+      | none => rw [hc] at h; simp at h
+      | some c =>
+        rw [hc] at h
+        simp only [List.mem_singleton] at h
+        exact ⟨c, h, rfl⟩
+  · right; right
+    unfold nsidOpts at h
+    split at h
+    · rename_i hn
+      simp only [List.mem_singleton] at h
+      exact ⟨h, hn.1, hn.2⟩
+    · simp at h
+
 /-! ### a Bool-coded twin of `acceptHeader` (cheap to evaluate in the kernel) -/
 
 /-- `(acceptHeader …).toNat`, written with Boolean tests only. -/
